@@ -174,6 +174,23 @@ fn gen_c02(ctx: &mut Ctx) {
         let len = *rng.pick(&[0usize, 1, 2, 3, 5, 16, 16, 17, 64, 255]);
         frames.push((rng.below(65536) as u16, rng.byte(), rng.bytes(len)));
     }
+    // adversarial family: frames whose data embeds the fields of ANOTHER frame, preceded by a byte
+    // that makes everything before the embedded part sum to 0 mod 256.  If the decoder ever looked
+    // at a suffix (or re-synchronised on a second ':'), a single substitution planting ':' would
+    // make it decode as that other frame with a matching checksum.
+    let inner_frames: Vec<(u16, u8, Vec<u8>)> = vec![(2, 1, vec![]), (0x1234, 4, vec![0x0F]), (3, 0, vec![1, 2, 3]), (0, 0, vec![])];
+    for (k, (ia, it, idata)) in inner_frames.iter().enumerate() {
+        for (oa, ot) in [(0u16, 0u8), (0x0103, 7), (0xFF00, (k as u8) * 16 + 1)] {
+            let mut inner = vec![idata.len() as u8, (ia >> 8) as u8, (ia & 0xFF) as u8, *it];
+            inner.extend_from_slice(idata);
+            let len = (1 + inner.len()) as u32;
+            let head = len + (oa >> 8) as u32 + (oa & 0xFF) as u32 + ot as u32;
+            let b0 = ((256 - head % 256) % 256) as u8;
+            let mut d = vec![b0];
+            d.extend_from_slice(&inner);
+            frames.push((oa, ot, d));
+        }
+    }
     let structural: Vec<u8> = b":0123456789ABCDEFabcdefG\r\n\x00\xff /g@`".to_vec();
     for (fi, (a, t, d)) in frames.iter().enumerate() {
         let orig = format!("OK {}.{}.{}", a, t, hex_of_bytes(d));
